@@ -104,6 +104,17 @@ def pick_coords(rng, n, k=3, full=False):
     return sorted(s)
 
 
+# revocation secrets whose first canonical SHA3 digest only comes at a LARGE index (found by a one-off search over about 2.4e8
+# random scalars; the largest needs 38 retries, i.e. more than 32): inputs for the index loop of RevocationPair::new that random
+# sampling never reaches (a secret fails k indices in a row with probability 0.547^k)
+LONG_INDEX_SECRETS = [
+    (10, 17451872378179384624167798009017123686439141302994111920957204847908824797067),
+    (19, 30197673804317436042824714248029274332439956494956150193383657058965770871244),
+    (27, 11020607500347309400623029216296371251634846568201665600741604526748480133990),
+    (38, 9755156560877488780544443786570583274117426644702751551520919353667957760941),
+]
+
+
 def rand_nz(rng):
     return rng.randrange(1, Q)
 
